@@ -172,7 +172,7 @@ fn check(c: &SplitCase, obs: &mut Obs) -> Verdict {
 }
 
 pub fn def() -> PropDef {
-    let mut d = PropDef::new("C08", "a generated multi-security input is split into two inputs A and B over disjoint symbols (B optionally carrying a planted bookkeeping failure from the C04 list, or a split combination the tool refuses), keeping the original interleaving for A+B (a third of the cases spread the rows over two or three input files, the same spread in all three runs; some start from an exchange-rate cache as an earlier run in the middle of the history would have left it); three runs. Every cell of every table of A (resp. B) must be identical in A+B; aggregate(A+B) per year = aggregate(A) + aggregate(B) = sum of the accepted securities' own yearly footers, within 1e-9; A+B must not fail as a whole when only one half has a problem; with a failing half, --csv-output-dir must still write the healthy securities' files (identical to a run without the failing half) and the aggregate file. Non-trivial = B contains a bookkeeping failure and A has at least one gain-bearing row. Distinct = distinct case content.");
+    let mut d = PropDef::new("C08", "a generated multi-security input is split into two inputs A and B over disjoint symbols (B optionally carrying a planted bookkeeping failure from the C04 list, or a split combination the tool refuses), keeping the original interleaving for A+B (a third of the cases spread the rows over two or three input files, the same spread in all three runs; rows may carry a USD commission whose rate the tool looks up itself next to an amount that needs no look-up; some start from an exchange-rate cache as an earlier run in the middle of the history would have left it); three runs. Every cell of every table of A (resp. B) must be identical in A+B; aggregate(A+B) per year = aggregate(A) + aggregate(B) = sum of the accepted securities' own yearly footers, within 1e-9; A+B must not fail as a whole when only one half has a problem; with a failing half, --csv-output-dir must still write the healthy securities' files (identical to a run without the failing half) and the aggregate file. Non-trivial = B contains a bookkeeping failure and A has at least one gain-bearing row. Distinct = distinct case content.");
     d.assumptions = vec!["affiliate display spelling is normalised (first spelling seen wins in the tool; not a figure)"];
     d.subs.push(Box::new(Sub::<SplitCase> { name: "split", cases_quick: 36_000, cases_thorough: 500_000, strategy: Box::new(strategy), to_json: SplitCase::to_json, from_json: SplitCase::from_json, check }));
     d
